@@ -709,6 +709,11 @@ func (e *c26Env) volume(idx, T int, p float64) {
 	eng.Start()
 	tag := c.rng.Uint64() % 100000
 	word := func(i int) string { return fmt.Sprintf("w%d_%d", tag, i) }
+	dotted := idx%2 == 1 && T >= 1000 && T <= 20000
+	if dotted {
+		scen += " with flat dotted keys"
+		c.dist("volume_dotted_keys", fmt.Sprintf("T=%d", T))
+	}
 	mkRows := func(lo, hi int, parts []string) []*slRow {
 		var rows []*slRow
 		per := 40
@@ -722,7 +727,15 @@ func (e *c26Env) volume(idx, T int, p float64) {
 				b.WriteString(word(lo + c.intn(hi-lo)))
 				b.WriteByte(' ')
 			}
-			rows = append(rows, w.addRow(map[string]any{"msg": b.String(), "p": parts[len(rows)%len(parts)]}))
+			row := map[string]any{"msg": b.String(), "p": parts[len(rows)%len(parts)]}
+			if dotted {
+				// flat keys that contain the path delimiter: each contributes its delimiter-split prefixes to the
+				// field entries as well (three field entries per key, none shared between keys)
+				for j := i; j < i+per && j < hi; j++ {
+					row[fmt.Sprintf("n%d_%d.d%d.util", tag, j, j)] = j % 7
+				}
+			}
+			rows = append(rows, w.addRow(row))
 		}
 		return rows
 	}
